@@ -339,7 +339,7 @@ def arr_single_steps(rng, p, vty, max_len, prefix_id, lookups_only=False):
             probes = list(range(1, 2 * n + 2))
             single = ['get %d 0' % k for k in probes] + ['has %d 0' % k for k in probes]
             if not lookups_only:
-                single += ['ins %d 5' % k for k in probes] + ['take %d 0' % k for k in probes] + ['rem %d 0' % k for k in probes]
+                single += ['ins %d %d' % (k, 5 if vty == 'pair' else 0) for k in probes] + ['take %d 0' % k for k in probes] + ['rem %d 0' % k for k in probes]
             for op in single:
                 out.append(Case('%s%d' % (prefix_id, cid), 'arr', hdr, [op, 'deref', 'len', 'full'], {'stream': 'S', 'n': n}))
                 cid += 1
